@@ -57,6 +57,7 @@ CONSTANTS
     MaxSent,       \* bound on the bytes written into one stream
     Count,         \* BOOLEAN: count calls (configurations with the real constants bound the number
                    \* of calls; the toy configurations are bounded by MaxSent alone)
+    IdleSecs,      \* durations (seconds) for which both sides may stay silent while nothing is on the wire
     MaxW, MaxR     \* budgets when Count: writer-side calls, reader-side calls
 
 VARIABLES
@@ -374,7 +375,17 @@ Relay(r, x) ==
                out |-> [res |-> IF closed[w] THEN "eof" ELSE "block", lo |-> dlv[w], n |-> Sum(ps),
                         pieces |-> ps, left |-> Left(w), tw |-> TW(fr), crash |-> crash]]
 
+\* Time passes while nothing is on the wire (every frame written has been consumed by the reading tunnel), so no header
+\* is in flight that could go stale: the tunnel must work exactly as before, however long the silence was - in particular
+\* a server that says its first word long after the handshake (the response header carries the time of that first write).
+Idle(d) ==
+    /\ \A w \in Ends : wire[w] = <<>>
+    /\ \E s \in Sess : dial[s].set
+    /\ UNCHANGED sv
+    /\ act' = [n |-> "Idle", d |-> d]
+
 Next ==
+    \/ \E d \in IdleSecs : Idle(d)
     \/ \E s \in Sess, al \in AddrLens, p \in PSizes, pad \in Pads : Dial(s, al, p, pad)
     \/ \E w \in Ends : \E k \in DSizes \cup {fly[w]} : Deliver(w, k)
     \/ \E s \in Sess : ServerHandle(s)
